@@ -264,7 +264,8 @@ def apply_update(name, P, o, frozen=False):
             s.coeffs[:] = s.coeffs * (0.5 + r[0]) + 0.1 * r[1]
         else:
             s.coord[:] = s.coord + np.array(r[:3]) - 0.5
-        s.assign_norm_cont()
+        with np.errstate(under="ignore"):  # the harness' own renormalisation call must not trip the history's FP setting
+            s.assign_norm_cont()
         if frozen:
             mi.freeze(s)
         return s
@@ -274,7 +275,8 @@ def apply_update(name, P, o, frozen=False):
         s.exps = np.array(s.exps) * 10.0 ** (2.6 * r[0] - 1.3)
     else:
         s.coord = np.array(s.coord) + np.array(r[:3]) - 0.5
-    s.assign_norm_cont()
+    with np.errstate(under="ignore"):
+        s.assign_norm_cont()
     if frozen:
         mi.freeze(s)
     return s
@@ -359,13 +361,14 @@ def run_history(case, pool, mode, viols, pass_name):
                         cm.call(overlap_integral, b_, tol_screen=0.5), cm.call(overlap_integral, b_, tol_screen=1e-1), cm.call(overlap_integral, b_, tol_screen=1e-6)]
                 for sh_ in b_:
                     out_.append(np.array(sh_.angmom_components_cart))
-                    out_.append(np.array(sh_.norm_prim_cart))
+                    out_.append(cm.call(lambda x_: np.array(x_.norm_prim_cart), sh_))
                     out_.append(cm.call(_gt, int(sh_.angmom), np.array(sh_.angmom_components_cart), tuple(sh_.angmom_components_sph), "left"))
                 return out_
 
             before = probes()
             rs_ = bases.rng_for("C19scramble", k, *o["r"])
-            handed = [overlap_integral(list(pool["basis"]))]
+            h0_ = cm.call(overlap_integral, list(pool["basis"]))
+            handed = [h0_] if isinstance(h0_, np.ndarray) else []
             from gbasis.integrals.overlap import Overlap as _Ov
 
             bl_ = list(pool["basis"])
@@ -376,7 +379,8 @@ def run_history(case, pool, mode, viols, pass_name):
                         if isinstance(blk_, np.ndarray):
                             handed.append(blk_)
             for sh_ in pool["basis"]:
-                handed += [sh_.angmom_components_cart, sh_.norm_prim_cart, _gt(int(sh_.angmom), sh_.angmom_components_cart, tuple(sh_.angmom_components_sph), "left")]
+                handed += [sh_.angmom_components_cart, cm.call(lambda x_: x_.norm_prim_cart, sh_),
+                           cm.call(_gt, int(sh_.angmom), sh_.angmom_components_cart, tuple(sh_.angmom_components_sph), "left")]
             nscr = 0
             for arr in handed:
                 if isinstance(arr, np.ndarray) and arr.flags.writeable and arr.size:
@@ -433,7 +437,8 @@ def run_history(case, pool, mode, viols, pass_name):
             from gbasis.integrals.kinetic_energy import kinetic_energy_integral as _kin
             from gbasis.integrals.point_charge import point_charge_integral as _pc
 
-            fresh = [_G(int(x.angmom), np.array(x.coord), np.array(x.coeffs), np.array(x.exps), x.coord_type) for x in pool["basis"]]
+            with np.errstate(under="ignore"):
+                fresh = [_G(int(x.angmom), np.array(x.coord), np.array(x.coeffs), np.array(x.exps), x.coord_type) for x in pool["basis"]]
             for nm, fn in (("overlap_integral", lambda b: overlap_integral(b)), ("kinetic_energy_integral", lambda b: _kin(b)),
                            ("overlap_integral(tol_screen=1e-1)", lambda b: overlap_integral(b, tol_screen=1e-1)),
                            ("overlap_integral(tol_screen=1e-3)", lambda b: overlap_integral(b, tol_screen=1e-3)),
